@@ -24,6 +24,7 @@ type SEnv struct {
 	ct      *Contract
 	block   *ssa.BasicBlock // current block (for local lookup), may be nil
 	depth   int
+	localsFirst bool // identifiers denote current values of locals/params (loop invariants, call-site asserts)
 }
 
 var tyBool = types.Typ[types.Bool]
@@ -63,6 +64,14 @@ func (e *SEnv) pkg() *types.Package {
 	return nil
 }
 
+// stOf: the state in which references held by v are dereferenced.
+func (e *SEnv) stOf(v Val) *State {
+	if v.Old != nil {
+		return v.Old
+	}
+	return e.cur
+}
+
 func (e *SEnv) evalBool(x SExpr) Term {
 	v := e.eval(x)
 	if len(v.S) != 1 {
@@ -100,7 +109,9 @@ func (e *SEnv) eval(x SExpr) Val {
 			if !ok {
 				e.fail("dereference of non-pointer %v", v.T)
 			}
-			return vc.loadAt(e.cur, v.S[0], v.S[1], pt.Elem())
+			r := vc.loadAt(e.stOf(v), v.S[0], v.S[1], pt.Elem())
+			r.Old = v.Old
+			return r
 		case "&":
 			return e.addr(x.X)
 		}
@@ -142,7 +153,7 @@ func (e *SEnv) eval(x SExpr) Val {
 				hi = base.S[2]
 			}
 			es := vc.p.lay.size(u.Elem())
-			return Val{T: base.T, S: []Term{base.S[0], tAdd(base.S[1], tMul(tInt(int64(es)), lo)), tSub(hi, lo), tSub(base.S[3], lo)}}
+			return Val{T: base.T, S: []Term{base.S[0], vc.elemOff(base.S[1], lo, es), tSub(hi, lo), tSub(base.S[3], lo)}}
 		}
 		e.fail("slice expression on %v", base.T)
 	case *SCall:
@@ -314,6 +325,13 @@ func (e *SEnv) fnPos() token.Pos {
 }
 
 func (e *SEnv) ident(name string) Val {
+	if e.localsFirst && e.fr != nil && e.fr.fn == e.fn {
+		if _, isParam := e.fr.specVars[name]; isParam {
+			if v, ok := e.fr.lookupLocal(e.cur, name, e.block); ok {
+				return v
+			}
+		}
+	}
 	if v, ok := e.vars[name]; ok {
 		return v
 	}
@@ -458,7 +476,9 @@ func (e *SEnv) fieldOf(base Val, name string) Val {
 			stt := pt.Elem().Underlying().(*types.Struct)
 			off := vc.p.lay.fieldOffset(stt, idx)
 			ft := stt.Field(idx).Type()
-			cur = vc.loadAt(e.cur, cur.S[0], tAdd(cur.S[1], tInt(int64(off))), ft)
+			o := cur.Old
+			cur = vc.loadAt(e.stOf(cur), cur.S[0], tAdd(cur.S[1], tInt(int64(off))), ft)
+			cur.Old = o
 			continue
 		}
 		stt, isSt := t.Underlying().(*types.Struct)
@@ -467,7 +487,7 @@ func (e *SEnv) fieldOf(base Val, name string) Val {
 		}
 		off := vc.p.lay.fieldOffset(stt, idx)
 		ft := stt.Field(idx).Type()
-		cur = Val{T: ft, S: cur.S[off : off+vc.p.lay.size(ft)]}
+		cur = Val{T: ft, S: cur.S[off : off+vc.p.lay.size(ft)], Old: cur.Old}
 	}
 	return cur
 }
@@ -508,7 +528,7 @@ func (e *SEnv) addr(x SExpr) Val {
 		if sl, ok := types.Unalias(base.T).Underlying().(*types.Slice); ok {
 			i := e.eval(x.I).S[0]
 			es := vc.p.lay.size(sl.Elem())
-			return Val{T: types.NewPointer(sl.Elem()), S: []Term{base.S[0], tAdd(base.S[1], tMul(tInt(int64(es)), i))}}
+			return Val{T: types.NewPointer(sl.Elem()), S: []Term{base.S[0], vc.elemOff(base.S[1], i, es)}}
 		}
 	}
 	e.fail("& of unsupported expression")
@@ -523,14 +543,18 @@ func (e *SEnv) index(x *SIndex) Val {
 		if arr, ok := pt.Elem().Underlying().(*types.Array); ok {
 			i := e.eval(x.I).S[0]
 			es := vc.p.lay.size(arr.Elem())
-			return vc.loadAt(e.cur, base.S[0], tAdd(base.S[1], tMul(tInt(int64(es)), i)), arr.Elem())
+			r := vc.loadAt(e.stOf(base), base.S[0], vc.elemOff(base.S[1], i, es), arr.Elem())
+			r.Old = base.Old
+			return r
 		}
 	}
 	switch u := t.Underlying().(type) {
 	case *types.Slice:
 		i := e.eval(x.I).S[0]
 		es := vc.p.lay.size(u.Elem())
-		return vc.loadAt(e.cur, base.S[0], tAdd(base.S[1], tMul(tInt(int64(es)), i)), u.Elem())
+		r := vc.loadAt(e.stOf(base), base.S[0], vc.elemOff(base.S[1], i, es), u.Elem())
+		r.Old = base.Old
+		return r
 	case *types.Basic:
 		i := e.eval(x.I).S[0]
 		return Val{T: types.Typ[types.Uint8], S: []Term{sx("sbyte", base.S[0], i)}}
@@ -540,10 +564,10 @@ func (e *SEnv) index(x *SIndex) Val {
 		if len(k.S) != vc.p.lay.size(u.Key()) {
 			e.fail("map key shape")
 		}
-		v := vc.mapGetRaw(e.cur, base.S[0], k, u.Elem())
-		has := vc.mapHas(e.cur, base.S[0], k)
+		v := vc.mapGetRaw(e.stOf(base), base.S[0], k, u.Elem())
+		has := vc.mapHas(e.stOf(base), base.S[0], k)
 		z := vc.zeroVal(u.Elem())
-		out := Val{T: u.Elem()}
+		out := Val{T: u.Elem(), Old: base.Old}
 		for i := range v.S {
 			out.S = append(out.S, tIte(has, v.S[i], z.S[i]))
 		}
@@ -570,7 +594,11 @@ func (e *SEnv) call(x *SCall) Val {
 			if n.cur == nil {
 				e.fail("old() not available here")
 			}
-			return n.eval(x.Args[0])
+			r := n.eval(x.Args[0])
+			if r.Old == nil {
+				r.Old = e.old
+			}
+			return r
 		case "len":
 			v := arg(0)
 			switch u := types.Unalias(v.T).Underlying().(type) {
@@ -580,9 +608,9 @@ func (e *SEnv) call(x *SCall) Val {
 				return intVal(sx("slen", v.S[0]))
 			case *types.Map:
 				if vc.inQuant == 0 {
-					vc.assumeRaw(vc.mapLenFacts(e.cur, v.S[0], u.Key()))
+					vc.assumeRaw(vc.mapLenFacts(e.stOf(v), v.S[0], u.Key()))
 				}
-				return intVal(tSel(vc.get(e.cur, vc.mapLenKey()), v.S[0]))
+				return intVal(tSel(vc.get(e.stOf(v), vc.mapLenKey()), v.S[0]))
 			case *types.Array:
 				return intVal(tInt(u.Len()))
 			}
@@ -596,7 +624,7 @@ func (e *SEnv) call(x *SCall) Val {
 				e.fail("in(k, m): m is %v", m.T)
 			}
 			k.T = mt.Key()
-			return boolVal(vc.mapHas(e.cur, m.S[0], k))
+			return boolVal(vc.mapHas(e.stOf(m), m.S[0], k))
 		case "fresh":
 			v := arg(0)
 			if e.old == nil {
